@@ -270,22 +270,38 @@ def main(tier=None):
     b = build.build('plain')
     thorough = ck.tier == 'thorough'
     scripts = []
-    if thorough:
+
+    def base_set():
+        out = []
         for fmt in (1, 2, 5):
-            scripts += gen_T1(fmt, SHAPES[1:])
-            scripts += gen_T2(fmt, SHAPES, [l[0] for l in LAYOUTS])
-            scripts += gen_T5(fmt, SHAPES)
-        scripts += gen_T2(5, SHAPES[1:4], LAYOUTS_QUICK, xtype=D.NC_DOUBLE)
-        scripts += gen_T2(1, SHAPES[1:4], LAYOUTS_QUICK, xtype=D.NC_SHORT)
-        for np in (2, 3): scripts += gen_T3(1, SHAPES, np)
-        scripts += gen_T3(5, SHAPES, 2)
-        scripts += gen_T4((1, 2, 5))
-    else:
-        scripts += gen_T1(1, SHAPES_QUICK_T1)
-        scripts += gen_T2(2, SHAPES, LAYOUTS_QUICK)
-        scripts += gen_T5(1, [SHAPES[2], SHAPES[4]])
-        scripts += gen_T3(1, [SHAPES[2], SHAPES[4], SHAPES[5]], 2)
-        scripts += gen_T4((5,))
+            out += gen_T1(fmt, SHAPES[1:])
+            out += gen_T2(fmt, SHAPES, [l[0] for l in LAYOUTS])
+            out += gen_T5(fmt, SHAPES)
+        out += gen_T2(5, SHAPES[1:4], LAYOUTS_QUICK, xtype=D.NC_DOUBLE)
+        out += gen_T2(1, SHAPES[1:4], LAYOUTS_QUICK, xtype=D.NC_SHORT)
+        for np in (2, 3): out += gen_T3(1, SHAPES, np)
+        out += gen_T3(5, SHAPES, 2)
+        out += gen_T4((1, 2, 5))
+        return out
+    scripts += base_set()
+    if thorough:
+        # second scope: longer dimensions, a 4-D variable, more processes, every external type under every layout
+        global DIMS, NREC
+        saved = (DIMS, NREC)
+        DIMS = [('t', None), ('a', 3), ('b', 4), ('c', 2)]; NREC = 4
+        big_shapes = [(2,), (1, 2), (0, 1), (0, 3, 1), (1, 3, 2, 3)]
+        try:
+            more = []
+            more += gen_T1(2, big_shapes[:4])
+            for fmt in (1, 5): more += gen_T2(fmt, big_shapes, [l[0] for l in LAYOUTS])
+            more += gen_T5(2, big_shapes)
+            for np in (2, 3, 4): more += gen_T3(5, big_shapes, np)
+            for xt in (D.NC_BYTE, D.NC_SHORT, D.NC_FLOAT, D.NC_DOUBLE, D.NC_UBYTE, D.NC_USHORT, D.NC_UINT, D.NC_INT64, D.NC_UINT64):
+                more += gen_T2(5, big_shapes[1:4], [l[0] for l in LAYOUTS], xtype=xt)
+            for s in more: s.case.name = 'B' + s.case.name
+            scripts += more
+        finally:
+            DIMS, NREC = saved
     results = runner.run_cases(b['vx'], [s.case for s in scripts], batch=4)
     for s, r in zip(scripts, results):
         ck.cov['evaluations'] += s.nevals
@@ -302,7 +318,7 @@ def main(tier=None):
                       're-read and an independent decode of the file; distinct_nontrivial = number of distinct read-back value vectors observed')
     ck.cov['cases'] = len(scripts)
     ck.sample(scripts[0].case.text()[:1500]); ck.sample(scripts[len(scripts) // 2].case.text()[:1500])
-    ck.assumptions += ['dimension lengths <= 3, np <= 3, datatype nesting <= 2', 'Open MPI 4.1.4 OMPIO on local tmpfs/ext4',
+    ck.assumptions += ['dimension lengths <= 3, np <= 3 (thorough: lengths <= 4, a 4-D variable, np <= 4, every external type), datatype nesting <= 2', 'Open MPI 4.1.4 OMPIO on local tmpfs/ext4',
                        'codec engine/cdf.py and model engine/model/data.py are the trusted base']
     runner.cleanup()
     return ck.finish(min_eval=500, min_outcomes=50)
